@@ -17,7 +17,7 @@ variable {R : Type} [CommRing R] [StarRing R]
 `⟨ψ| preimage(G) |ψ⟩ = Tr(G · ρ_AB(ψ))` with `ρ_AB` assembled from the same tensor, provided the tensor has the symmetry
 `B[r,s,i,j] = B[s,r,j,i]` of an overlap `Tr⟨r|D_i⟩⟨D_j|s⟩` of real vectors. -/
 theorem preimageBoson_expectation (dimA dimB L : ℕ) (G : ℕ → ℕ → R) (B : ℕ → ℕ → ℕ → ℕ → R)
-    (hsym : ∀ r s i j, B r s i j = B s r j i) (ψ : ℕ → ℕ → R) :
+    (hsym : ∀ r s i j, r < dimB → s < dimB → i < L → j < L → B r s i j = B s r j i) (ψ : ℕ → ℕ → R) :
     ∑ x ∈ range (dimA * L), ∑ y ∈ range (dimA * L),
         star (ψ (x / L) (x % L)) * preimageBoson dimB L G B x y * ψ (y / L) (y % L)
       = ∑ u ∈ range (dimA * dimB), ∑ v ∈ range (dimA * dimB), G u v * assembleTensor dimB L B ψ v u := by
@@ -32,8 +32,8 @@ theorem preimageBoson_expectation (dimA dimB L : ℕ) (G : ℕ → ℕ → R) (B
     intro p hp a' _ q hq
     have hp' := mem_range.1 hp; have hq' := mem_range.1 hq
     simp only [preimageBoson, sumRange_eq_sum, div_of_lt hp', mod_of_lt hp', div_of_lt hq', mod_of_lt hq', mul_sum, sum_mul]
-    refine sum_congr rfl fun r _ => sum_congr rfl fun s _ => ?_
-    rw [hsym s r q p]; ring
+    refine sum_congr rfl fun r hr => sum_congr rfl fun s hs => ?_
+    rw [hsym s r q p (mem_range.1 hs) (mem_range.1 hr) hq' hp']; ring
   have hR : ∀ r ∈ range dimB, ∀ a' ∈ range dimA, ∀ s ∈ range dimB,
       G (a * dimB + r) (a' * dimB + s) * assembleTensor dimB L B ψ (a' * dimB + s) (a * dimB + r)
         = ∑ i ∈ range L, ∑ j ∈ range L, G (a * dimB + r) (a' * dimB + s) * (ψ a' i * B s r i j * star (ψ a j)) := by
@@ -188,6 +188,138 @@ theorem bijTable_wf (N d r s : ℕ) :
     have e2 := (rowEntry_spec N d r s a' ha2 b' (by simpa using hb')).1
     rintro ⟨h, _⟩
     omega
+
+/-! ### the tensor entries are the closed-form coefficients; overlap symmetry for every `(n, d)` -/
+
+/-- the table over ℂ (`value = √value²`), entry `(r, s)` -/
+noncomputable def tableCq (N d r s : ℕ) : List (ℕ × ℕ × ℂ) := (bijTable N d r s).map fun e => (e.1, e.2.1, wRoot e.2.2)
+
+theorem tableCq_wf (N d r s : ℕ) :
+    (∀ e ∈ tableCq N d r s, e.1 < (klist d N).length ∧ e.2.1 < (klist d N).length) ∧
+    (tableCq N d r s).Pairwise fun e e' => ¬ (e.1 = e'.1 ∧ e.2.1 = e'.2.1) := by
+  constructor
+  · intro e he
+    simp only [tableCq, List.mem_map] at he
+    obtain ⟨e0, he0, rfl⟩ := he
+    exact (bijTable_wf N d r s).1 e0 he0
+  · simp only [tableCq]; rw [List.pairwise_map]; exact (bijTable_wf N d r s).2
+
+/-- **every entry of the tensor is the closed-form overlap coefficient** (all `(N, d)`, `r, s < d`, Dicke indices in range) -/
+theorem valOf_tableCq (N d r s : ℕ) (hd : 1 ≤ d) (hr : r < d) (hs : s < d) (i0 j0 : ℕ)
+    (hi : i0 < (klist d N).length) (hj : j0 < (klist d N).length) :
+    valOf (tableCq N d r s) i0 j0 = ((coefN N r s ((klist d N).getD i0 []) ((klist d N).getD j0 []) : ℝ) : ℂ) := by
+  set L := (klist d N).length with hL
+  have h1 := sum_table_eq_tensor L (tableCq N d r s) (fun i j v => if i = i0 ∧ j = j0 then v else 0)
+    (fun i j => by simp) (tableCq_wf N d r s).1 (tableCq_wf N d r s).2
+  -- right-hand side: only (i0, j0) survives
+  have hR : ∑ i ∈ range L, ∑ j ∈ range L, (if i = i0 ∧ j = j0 then valOf (tableCq N d r s) i j else 0)
+      = valOf (tableCq N d r s) i0 j0 := by
+    rw [sum_eq_single i0]
+    · rw [sum_eq_single j0]
+      · simp
+      · intro j _ hne; simp [hne]
+      · intro h; exact absurd (mem_range.2 hj) h
+    · intro i _ hne; exact sum_eq_zero fun j _ => by simp [hne]
+    · intro h; exact absurd (mem_range.2 hi) h
+  rw [hR] at h1
+  rw [← h1, foldr_eq_sum_map, tableCq, List.map_map, bijTable_eq]
+  have hfun : ((fun e : ℕ × ℕ × ℂ => if e.1 = i0 ∧ e.2.1 = j0 then e.2.2 else 0) ∘ fun e : ℕ × ℕ × ℚ => (e.1, e.2.1, wRoot e.2.2))
+      = fun e : ℕ × ℕ × ℚ => (fun i j => if i = i0 ∧ j = j0 then (1 : ℂ) else 0) e.1 e.2.1 * wRoot e.2.2 := by
+    funext e; simp only [Function.comp]; split <;> simp
+  rw [hfun, sum_filterMap_range]
+  have hrow : ∀ i ∈ range L, optVal (fun e : ℕ × ℕ × ℚ => (fun i j => if i = i0 ∧ j = j0 then (1 : ℂ) else 0) e.1 e.2.1 * wRoot e.2.2)
+        (rowEntry N d r s i)
+      = ∑ j ∈ range L, (if i = i0 ∧ j = j0 then (1 : ℂ) else 0)
+          * ((coefN N r s ((klist d N).getD i []) ((klist d N).getD j []) : ℝ) : ℂ) :=
+    fun i hi' => row_sum N d r s hd hr hs i (mem_range.1 hi') (fun i j => if i = i0 ∧ j = j0 then (1 : ℂ) else 0)
+  rw [sum_congr rfl hrow, sum_eq_single i0]
+  · rw [sum_eq_single j0]
+    · simp
+    · intro j _ hne; simp [hne]
+    · intro h; exact absurd (mem_range.2 hj) h
+  · intro i _ hne; exact sum_eq_zero fun j _ => by simp [hne]
+  · intro h; exact absurd (mem_range.2 hi) h
+
+theorem cond_symm (r s : ℕ) (a b : List ℕ) : Cond r s a b ↔ Cond s r b a := by
+  unfold Cond
+  constructor
+  · rintro ⟨h1, h2, h3⟩; exact ⟨h2, h1, h3.symm⟩
+  · rintro ⟨h1, h2, h3⟩; exact ⟨h2, h1, h3.symm⟩
+
+theorem coefN_symm (N r s : ℕ) (a b : List ℕ) : coefN N r s a b = coefN N s r b a := by
+  unfold coefN
+  by_cases h : Cond r s a b
+  · rw [if_pos h, if_pos ((cond_symm r s a b).1 h), mul_comm]
+  · rw [if_neg h, if_neg (fun h' => h ((cond_symm r s a b).2 h'))]
+
+/-- **overlap symmetry `B[r,s,i,j] = B[s,r,j,i]` of the executed tensor, for every `(N, d)`** -/
+theorem tensor_symm (N d r s i j : ℕ) (hd : 1 ≤ d) (hr : r < d) (hs : s < d)
+    (hi : i < (klist d N).length) (hj : j < (klist d N).length) :
+    valOf (tableCq N d r s) i j = valOf (tableCq N d s r) j i := by
+  rw [valOf_tableCq N d r s hd hr hs i j hi hj, valOf_tableCq N d s r hd hs hr j i hj hi, coefN_symm]
+
+/-! ### spanning: permutation-invariant vectors are constant on occupation classes -/
+
+theorem digits_length (d n x : ℕ) : (digits d n x).length = n := by
+  induction n generalizing x with
+  | zero => simp [digits_zero]
+  | succ n ih => rw [digits_succ]; simp [ih]
+
+theorem digits_lt (d n x : ℕ) (hx : x < d ^ n) : ∀ q ∈ digits d n x, q < d := by
+  induction n generalizing x with
+  | zero => simp [digits_zero]
+  | succ n ih =>
+    rw [digits_succ]
+    intro q hq
+    have hd : 0 < d ^ n := by
+      rcases Nat.eq_zero_or_pos (d ^ n) with h | h
+      · rw [pow_succ, h] at hx; simp at hx
+      · exact h
+    rcases List.mem_cons.1 hq with rfl | hq
+    · rw [pow_succ, Nat.mul_comm] at hx; exact (Nat.div_lt_iff_lt_mul hd).2 hx
+    · exact ih _ (Nat.mod_lt _ hd) q hq
+
+theorem occ_sum (d : ℕ) (l : List ℕ) (hl : ∀ q ∈ l, q < d) : (occ d l).sum = l.length := by
+  induction l with
+  | nil =>
+    have : occ d [] = List.replicate d 0 := by
+      apply List.ext_getElem
+      · simp [occ_length]
+      · intro i h1 h2; rw [occ_getElem]; simp
+    rw [this]; simp
+  | cons q l ih =>
+    have hq : q < d := hl q List.mem_cons_self
+    rw [occ_cons d q l hq, sum_set_incr _ q (by rw [occ_length]; exact hq), ih (fun x hx => hl x (List.mem_cons_of_mem _ hx))]
+    simp
+
+/-- equal occupation numbers ⇒ the digit strings are permutations of each other -/
+theorem perm_of_occ_eq (d : ℕ) (l l' : List ℕ) (hl : ∀ q ∈ l, q < d) (hl' : ∀ q ∈ l', q < d) (h : occ d l = occ d l') :
+    l.Perm l' := by
+  rw [List.perm_iff_count]
+  intro a
+  by_cases ha : a < d
+  · have h1 := occ_getD d l a ha
+    have h2 := occ_getD d l' a ha
+    rw [← h1, ← h2, h]
+  · have n1 : a ∉ l := fun hm => ha (hl a hm)
+    have n2 : a ∉ l' := fun hm => ha (hl' a hm)
+    rw [List.count_eq_zero_of_not_mem n1, List.count_eq_zero_of_not_mem n2]
+
+/-- **a permutation-invariant vector is constant on occupation classes** -/
+theorem symmetric_const_on_occ {β : Type} (d n : ℕ) (v : ℕ → β)
+    (hsym : ∀ x y, x < d ^ n → y < d ^ n → (digits d n x).Perm (digits d n y) → v x = v y)
+    (x y : ℕ) (hx : x < d ^ n) (hy : y < d ^ n) (h : occ d (digits d n x) = occ d (digits d n y)) : v x = v y :=
+  hsym x y hx hy (perm_of_occ_eq d _ _ (digits_lt d n x hx) (digits_lt d n y hy) h)
+
+theorem occ_digits_mem_klist (d n x : ℕ) (hd : 1 ≤ d) (hx : x < d ^ n) : occ d (digits d n x) ∈ klist d n := by
+  obtain ⟨e, rfl⟩ : ∃ e, d = e + 1 := ⟨d - 1, by omega⟩
+  rw [mem_klist_iff]
+  exact ⟨occ_length _ _, by rw [occ_sum _ _ (digits_lt _ n x hx), digits_length]⟩
+
+theorem sum_map_single {β : Type} [DecidableEq β] (l : List β) (hnd : l.Nodup) (a0 : β) (ha : a0 ∈ l) (f : β → ℝ) :
+    (l.map fun a => if a0 = a then f a else 0).sum = f a0 := by
+  rw [← List.sum_toFinset _ hnd, Finset.sum_ite_eq]
+  simp [ha]
 
 end Dicke
 end Numqi
